@@ -508,3 +508,19 @@ theorem rule_run {σ ι β τ} (m : Machine σ ι β) (I : St σ → Prop) (abs 
         simpa using ih st h hr
 
 end Comb
+
+namespace Comb
+
+theorem final_abs {σ ι β τ} (m : Machine σ ι β) (I : St σ → Prop) (abs : σ → τ) (sstep : τ → Nat × Notif ι → τ)
+    (hinv : ∀ st e, I st → I (step m st e).1)
+    (habs : ∀ st e, I st → abs (step m st e).1.s = (accOne st e).foldl sstep (abs st.s))
+    (es : List (Ev ι)) : ∀ st, I st →
+    abs (final m st es).s = (accepted m st es).foldl sstep (abs st.s) ∧ I (final m st es) := by
+  induction es with
+  | nil => intro st h; exact ⟨rfl, h⟩
+  | cons e es ih =>
+    intro st h
+    have := ih _ (hinv st e h)
+    exact ⟨by rw [final, accepted_cons, List.foldl_append, this.1, habs st e h], this.2⟩
+
+end Comb
